@@ -35,8 +35,13 @@ def viol(ctx, key: str, what: str, witness: dict) -> None:
 
         known = ctx.__dict__["_ops_known"] = [f["match"]["key"] for f in load_known_findings()
                                               if f.get("status", "known") == "known" and f.get("match", {}).get("unit") == ctx.unit]
-    cap = 1 if any(key.startswith(k) for k in known) else 2  # leave room for classes that are NOT already known
-    if seen[key] <= cap:
+    hit = [k for k in known if key.startswith(k)]
+    if hit:  # one witness per KNOWN finding: leave the room for classes that are not already known
+        seen_f = ctx.__dict__.setdefault("_ops_seen_known", set())
+        if hit[0] not in seen_f:
+            seen_f.add(hit[0])
+            ctx.violation(key, what, witness)
+    elif seen[key] <= 2:
         ctx.violation(key, what, witness)
 
 
@@ -310,11 +315,20 @@ def _make_env(name, n):
         return get_env(name, generator_params=dict(num_loc=n + (n % 2)))
     if name == "smtwtp":
         return get_env(name, generator_params=dict(num_job=n))
+    if name in ("dpp", "mdpp"):
+        # built without the impedance-data download, the way harness/units/select.py does (stubbed `_load_dpp_data`)
+        import units.select as _sel
+
+        gp = dict(max_decaps=2, num_keepout_min=1, num_keepout_max=3)
+        if name == "mdpp":
+            gp.update(num_probes_min=1, num_probes_max=2)
+        return _sel.make_dpp_env(name == "mdpp", 3 if n < 6 else 4, gp)
     return get_env(name, generator_params=dict(num_loc=n))
 
 
 REAL_ENVS = ["tsp", "atsp", "cvrp", "cvrptw", "sdvrp", "svrp", "op", "pctsp", "spctsp", "pdp", "mtsp", "mtvrp",
-             "smtwtp", "flp", "mcp"]
+             "smtwtp", "flp", "mcp", "dpp", "mdpp"]
+NO_DEPOT_ACTIONS = ("tsp", "atsp", "flp", "mcp", "dpp", "mdpp")  # every index 0..nAct-1 is a start candidate
 
 
 def _starts_oracle(ctx, name, mask, sel, B, k, lo, extra=None, branch=""):
@@ -379,7 +393,7 @@ def check_starts_envs(ctx):
             if int(real_k) != int(f["method"]):
                 ctx.disagreement("env.get_num_starts", {"env": name, "nAct": nAct, "nLocs": nLocs, "real": int(real_k),
                                                         "model": f["method"]})
-            lo = 0 if name in NO_DEPOT else 1
+            lo = 0 if name in NO_DEPOT_ACTIONS else 1
             kmax = min(int(real_k) + 2, 12)
             M = nAct - lo  # number of non-depot actions: sweep beyond it (num_starts / beam width > num_loc)
             from rl4co.utils.ops import get_num_starts as _generic_num_starts
@@ -413,6 +427,8 @@ def check_starts_envs(ctx):
                 branch = ""
                 if name == "svrp":  # the known SVRP defect is "generic prefix rule applied regardless of the mask"
                     branch = ":generic-rule" if sel == csv(mf["method"]) else ":other"
+                if name in ("dpp", "mdpp"):  # known: generic rule 1..k ignores the keep-out / probe cells masked at reset
+                    branch = ":keepout" if sel == csv(mf["method"]) else ":other"
                 _starts_oracle(ctx, name, mask, sel, B, k, lo, extra={"num_loc": n, "torch_seed": tseed}, branch=branch)
                 ctx.case(("starts-env", name, n, B, k, rep_i), nontrivial=k > 1)
 
@@ -1556,6 +1572,12 @@ def check_eval_call(ctx):
             ok = list(out["rewards"].shape) == [n] and torch.equal(out["rewards"], want) and out["actions"].shape[0] == n \
                 and torch.equal(out["actions"][:, 0], torch.arange(n) + 1) \
                 and all(set(out["actions"][i].tolist()) <= {i + 1, 0} for i in range(n))
+            sizes = [min(bs, n - k0) for k0 in range(0, n, bs)]
+            mf = parse_fields(ctx.driver.ask(f"ops.evalcall 0 | {ilist(sizes)} | {ilist(2 + z % 3 for z in sizes)}"))
+            m_rows = [csv(r) for r in mf["rows"].split(";")] if mf.get("rows") else []
+            if out["actions"].tolist() != m_rows or [int(round((v - 1000.0) / 3.0)) for v in out["rewards"].tolist()] != csv(mf["rewards"]):
+                ctx.disagreement("EvalBase.__call__ concat/padding", {"dataset": cname, "n": n, "batch_size": bs,
+                                                                      "real": out["actions"].tolist()[:6], "model": m_rows[:6]})
             ctx.count("eval.__call__" + (".partial" if n % bs else ".full"))
             ctx.case(("evalcall", cname, n, bs), nontrivial=n > 1)
             if not ok:
@@ -1581,6 +1603,10 @@ NOTE_T = ("tensors and TensorDicts are modelled through their leading (batch) di
 NOTE_S = ("feasibility of a forced start is a statement about the environment's reset mask: the index part is proved here "
           "(`starts_prefix`: instance b is forced to lo, lo+1, …, lo+k-1), the mask part is the env families' reset lemma; the "
           "harness evaluates the real reset masks of the bundled generators")
+NOTE_PD = ("translator tie (C17): `Params.dsExtraWriteUnconditional`, `dsExtraIndexShift`, `dsFastTdDirect`, `dsFastGenDirect`, "
+           "`dsCollateInOrder`, `blRolloutPlainConcat`, `blRolloutLoaderPlain`, `loaderShufflePassthrough`, `evalCatInOrder`, `evalPadLeft` "
+           "are regenerated from the sources and unfolded by the C17 proofs (a guarded write, a `__getitems__` fast path or a "
+           "buffer-offset rollout breaks `readExtra_eq` / `fetch_eq` / `rollout_aligned` at build)")
 NOTE_D = ("DataLoader's sampler (sequential / permutation) and batch sampler are modelled as `chunks` of an index order "
           "(lean/Rl4co/Train/Dataset.lean); the order a shuffling sampler draws is observed, not modelled; `RowWise` of a "
           "policy in eval mode is an assumption for real networks (true by construction for the stub policies used here)")
@@ -1641,6 +1667,7 @@ C12_THEOREMS = [
     T("Rl4co.Ops.starts_in_range", "proved", "every forced start is a startable index lo..lo+m-1"),
     T("Rl4co.Ops.starts_feasible_of_mask", "proved", "interface lemma: reset mask admits lo..lo+k-1 => all forced starts feasible"),
     T("Rl4co.Ops.start_infeasible_of_mask", "proved", "converse: a masked index among lo..lo+k-1 IS forced"),
+    T("Rl4co.Ops.genericStartsCode_eq", "proved", "the generic rule as written (expander, arange start, modulus, offset — all extracted) equals startsOf with lo = 1 / 0"),
     T("Rl4co.Ops.envRule_table", "proved", "(lo, m) of every environment's select_start_nodes"),
     T("Rl4co.Ops.default_starts_le", "proved", "default num_starts <= #startable for cvrp/pctsp/pdp/tsp/flp"),
     T("Rl4co.Ops.default_starts_gt", "proved", "default num_starts = #startable + 1 for mtvrp/svrp (node 1 forced twice)"),
@@ -1649,6 +1676,11 @@ C12_THEOREMS = [
     T("Rl4co.Ops.mtsp_starts_in_mask_partial", "partial", "mTSP: k <= num_loc - 1 (= default) => forced starts are action indices"),
     T("Rl4co.Ops.smtwtp_starts_in_mask_counterexample", "proved", "NOT (SMTWTP default forced starts are job indices): default k = n+1 forces index n+1"),
     T("Rl4co.Ops.smtwtp_starts_in_mask_partial", "partial", "SMTWTP: k <= n => forced starts are job indices"),
+    T("Rl4co.Ops.dpp_rule", "proved", "DPP/MDPP fall under the generic depot rule (1, 0xFFFFFFFF) and default num_starts = number of cells"),
+    T("Rl4co.Ops.dpp_starts_in_mask_counterexample", "proved", "NOT (DPP default forced starts are cell indices): 3x3 grid, default k = 9 forces cell 9"),
+    T("Rl4co.Ops.dpp_starts_in_mask_partial", "partial", "DPP/MDPP: k <= n - 1 => forced starts are cell indices"),
+    T("Rl4co.Ops.dpp_starts_offered_counterexample", "proved", "NOT (DPP forced starts are offered whenever k offered cells exist): keep-out cell 2, k = 3 forces 1,2,3"),
+    T("Rl4co.Ops.dpp_starts_offered_partial", "partial", "DPP/MDPP: offered iff the reset mask offers cells 1..k"),
     T("Rl4co.Ops.op_starts_feasible", "proved", "OP (fixed rule): every forced start is a customer feasible for its own instance whenever it has >= 1 feasible customer"),
     T("Rl4co.Ops.op_starts_distinct", "proved", "OP: >= k feasible customers => the k forced starts are pairwise distinct (the first k feasible ones)"),
     T("Rl4co.Ops.op_starts_eq_generic", "proved", "OP: all customers feasible => identical to the generic depot rule (j mod n) + 1"),
@@ -1674,11 +1706,17 @@ C17_THEOREMS = [
     T("Rl4co.Ops.rollout_aligned", "proved", "RowWise f => concatenated per-batch rewards = map g ds, any evaluation batch size"),
     T("Rl4co.Ops.wrap_aligned", "proved", "item i of the wrapped data set = (instance i, baseline reward of instance i)"),
     T("Rl4co.Ops.wrap_travels", "proved", "through any order and batch size each delivered pair is (ds[i], g ds[i])"),
+    T("Rl4co.Ops.fetch_eq", "proved", "every fetch path (collate / __getitems__ of both fast classes, extracted shapes) delivers the index list as given"),
+    T("Rl4co.Ops.readExtra_eq", "proved", "ExtraKeyDataset.__getitem__ (extracted: unconditional write, index idx) overwrites the key with extra[idx]"),
+    T("Rl4co.Ops.moduleOrder_sequential", "proved", "_dataloader_single(shuffle=False) reads sequentially (extracted shuffle=shuffle)"),
+    T("Rl4co.Ops.eval_call_aligned", "proved", "EvalBase.__call__: rewards[i] / actions[i] are instance i's, actions right-padded with zeros to the common length, any batching"),
+    T("Rl4co.Ops.eval_call_roundtrip", "proved", "… over a sequential loader: one reward per instance of the data set in order"),
+    T("Rl4co.Ops.padRow_eq", "proved", "pad(action, (0, L - len)) appends zeros only"),
     T("Rl4co.Ops.rewrap_current", "proved", "shared list-of-dicts items: after ANY history, a read through a wrapper returns the current wrapper's value, other entries untouched"),
     T("Rl4co.Ops.readMany_current", "proved", "the same for a whole pass over any index list (any order, repetitions) from any store"),
 ]
 
-NOTE_P = ("translator tie: `Params.opsLoopsReversed`, `opsNumStartsDepotEnvs`, `opsNoDepotStartEnvs`, `opsOpClampMin`, `opsOpArgsortStable`, "
+NOTE_P = ("translator tie: `Params.opsLoopsReversed`, `opsNumStartsDepotEnvs`, `opsNoDepotStartEnvs`, `opsOpClampMin`, `opsOpArgsortStable`, `opsOpCountPerInstance`, `opsNoDepotInterleave`, `opsDepotInterleave`, `opsDepotArangeStart`, `opsDepotModAdd`, `opsDepotPlus`, "
           "`opsSampleNReplaceCmp` are regenerated from utils/ops.py (harness/probes/ops.py) and unfolded by the C12 proofs")
 
 register(Unit("C12", "ops", run_c12, drivers=["drv_ops"],
@@ -1686,4 +1724,4 @@ register(Unit("C12", "ops", run_c12, drivers=["drv_ops"],
               theorems=C12_THEOREMS, assumptions=[NOTE_T, NOTE_S, NOTE_P], replay=replay_c12, search=run_c12))
 register(Unit("C17", "ops", run_c17, drivers=["drv_ops"],
               lean_modules=["Rl4co.Props.C17.Dataset", "Rl4co.Spec.Ops"],
-              theorems=C17_THEOREMS, assumptions=[NOTE_D], replay=replay_c17, search=run_c17))
+              theorems=C17_THEOREMS, assumptions=[NOTE_D, NOTE_PD], replay=replay_c17, search=run_c17))
